@@ -377,6 +377,76 @@ def rule_recognisable(ctx: Ctx, data):
            f"extractor (or the edition of a template that does not use $edition); missing: {missing[:5]}", mod=tm)
 
 
+def rule_token_boundary(ctx: Ctx, data):
+    """R-C01-13: where the citation token ends, the pin cite begins.  The page group closes every reporter pattern, and the metadata scan that
+    follows expects the pin cite to start with one of a few separator characters (computed: the non-alphanumeric characters PIN_CITE_REGEX can
+    begin with).  If the page pattern itself can consume such a separator, "1 U.S. 12,347" is one token with page "12,347" and the written page,
+    span and pin cite are all lost."""
+    consts = data["regex_constants"]
+    rm = ctx.repo.mod("regexes")
+    pg, pc = consts.get("PAGE_NUMBER_REGEX"), consts.get("PIN_CITE_REGEX")
+    ctx.need(pg is not None and pc is not None, "PAGE_NUMBER_REGEX / PIN_CITE_REGEX not materialised")
+    seps = {c for c in rx.first_chars(dedupe_group_names(pc)[0], _re.X) if not (c.isalnum() or c == "_")}
+    page = rx.alphabet(pg)
+    clash = sorted(seps & page)
+    ctx.ob("R-C01-13", "regexes.PAGE_NUMBER_REGEX/disjoint-from-pin-cite-separators", not clash and len(seps) >= 2,
+           f"a pin cite can begin with {sorted(seps)}; the page pattern can consume {sorted(page)[:24]}; common characters {clash} let the page swallow the "
+           "separator and the first pin-cite number", node=None, mod=rm)
+
+
+def rule_scan_extent(ctx: Ctx, data):
+    """R-C01-14: a forward metadata scan that records where the citation ends (full_span_end) must not run on into the next citation.  The
+    post-citation patterns end in a greedy run that crosses words and parentheses (the parenthetical); such a pattern either scans plain words only
+    (strings_only=True: the text stops at the next citation / stop word) or the function trims the recorded end back after cutting the
+    parenthetical down (the `full_span_end - (len(raw) - len(processed))` idiom of add_post_citation)."""
+    repo = ctx.repo
+    hm = repo.mod("helpers")
+    consts = data["regex_constants"]
+
+    def runs_on(pat: str) -> bool:
+        def walk(items):
+            for op, av in items:
+                n = str(op)
+                if n in ("MAX_REPEAT", "MIN_REPEAT") and av[1] == rx.MAXREPEAT:
+                    a = rx.tree_alphabet(av[2])
+                    if {" ", "a", ")"} <= a:
+                        return True
+                sub = av[3] if n == "SUBPATTERN" else av[2] if n in ("MAX_REPEAT", "MIN_REPEAT") else None
+                if sub is not None and walk(sub):
+                    return True
+                if n == "BRANCH" and any(walk(b) for b in av[1]):
+                    return True
+            return False
+        return walk(rx.parse(dedupe_group_names(pat)[0], _re.X))
+
+    n = 0
+    for q, mod, fn in repo.all_funcs():
+        if mod.name != "helpers":
+            continue
+        for c in [x for x in walk_local(fn) if isinstance(x, ast.Call) and dotted(x.func) == "match_on_tokens" and len(x.args) >= 3]:
+            kw = {k.arg: k.value for k in c.keywords}
+            if "forward" in kw and isinstance(kw["forward"], ast.Constant) and kw["forward"].value is False:
+                continue
+            stores = [x for x in walk_local(fn) if isinstance(x, (ast.Assign, ast.AugAssign)) and any(
+                isinstance(t, ast.Attribute) and t.attr == "full_span_end" for t in (x.targets if isinstance(x, ast.Assign) else [x.target]))]
+            if not stores:
+                continue
+            pat = consts.get(norm(c.args[2]))
+            if pat is None:
+                continue
+            n += 1
+            so = kw.get("strings_only")
+            words_only = isinstance(so, ast.Constant) and so.value is True
+            trims = [x for x in stores if (isinstance(x, ast.AugAssign) and isinstance(x.op, ast.Sub)) or (
+                isinstance(x, ast.Assign) and isinstance(x.value, ast.BinOp) and isinstance(x.value.op, ast.Sub) and "full_span_end" in norm(x.value.left))]
+            greedy = runs_on(pat)
+            ctx.ob("R-C01-14", f"{q}/scan:{norm(c.args[2])}", (not greedy) or words_only or bool(trims),
+                   f"`{norm(c.args[2])}` ends in a greedy run over words and parentheses ({greedy}); the scan is words-only: {words_only}; the recorded end is "
+                   f"trimmed afterwards: {bool(trims)} -- otherwise the full span runs on to the last `)` within the scan window, over later citations",
+                   node=c, mod=mod)
+    ctx.ob("R-C01-14", "helpers/forward-scans-recording-an-end", n >= 3, f"{n} forward scans that record full_span_end inspected", node=None, mod=hm, nontrivial=False)
+
+
 def rule_offset_zero(ctx: Ctx):
     """R-C01-12: 0 is a legitimate start offset (a citation at the very beginning of the text).  A start offset that is tested by truthiness
     -- `if c.full_span_start and ..`, `c.span_start or x` -- is treated as absent there, so the components that depend on the test (the
@@ -436,6 +506,8 @@ def run(ctx: Ctx):
     ctx.guard(rule_backscan, ctx, "R-C01-10", True)
     ctx.guard(rule_no_clobber, ctx, C)
     ctx.guard(rule_offset_zero, ctx)
+    ctx.guard(rule_token_boundary, ctx, data)
+    ctx.guard(rule_scan_extent, ctx, data)
     ctx.floor("R-C01-11", 2)
     ctx.floor("R-C01-10", 7)
     ctx.floor("R-C01-1", 6)
